@@ -34,9 +34,10 @@ class ValidateInput(Contract):
                 conds.append(And(O.ne(s, -1), O.ne(s, d)))
         if a.get('dtype') is not None:
             raise Unsupported("_validate_input(dtype=...) not modelled")
-        if a.get('min_value') is not None or a.get('max_value') is not None:
-            if not a.get('_range_ok', False):
-                raise Unsupported("_validate_input(min/max) on a general tensor")
+        if a.get('min_value') is not None:
+            conds.append(O.exists_box(X.shape, lambda *i: X.elem(*i) < a.min_value))
+        if a.get('max_value') is not None:
+            conds.append(O.exists_box(X.shape, lambda *i: X.elem(*i) > a.max_value))
         if a.get('ohe'):
             if X.rank < 2:
                 return True
@@ -77,38 +78,44 @@ class OneHotEncode(Contract):
         return onehot_from_idx([n, s.length], lambda i: s.code(i), ohe_dim=0)
 
 
+RNDOH = z3.Function('RNDOH', z3.IntSort(), z3.IntSort(), z3.IntSort(), z3.IntSort(), z3.IntSort())   # tape, pos, b, p
+
+
 class RandomOneHot(Contract):
-    """utils.random_one_hot — ASSUMED: returns some one-hot tensor of the requested shape."""
+    """utils.random_one_hot — ASSUMED: draw number `pos` of the generator's tape is some one-hot
+    tensor of the requested shape (index RNDOH(tape, pos, b, p) in [0, alphabet)); the generator
+    advances; invalid probabilities (uninterpreted predicate probs.valid) are rejected."""
     qualname = 'tangermeme.utils.random_one_hot'
     props = ('C01',)
     assumed = True
 
-    def rejects(self, a, cfg):
-        sh = a.shape
-        if not isinstance(sh, tuple) or len(sh) != 3:
-            return True
-        return False
-
-    def accepts(self, a, cfg):
-        # probabilities are not modelled: the generator may reject them
-        return False
-
-    def result(self, a, cfg):
-        sh = list(a.shape)
-        nm = O.fresh_name('rand')
-        f = z3.Function(nm, z3.IntSort(), z3.IntSort(), z3.IntSort())
-        t = onehot_from_idx(sh, lambda b, p: f(O.to_z3(b), O.to_z3(p)), ohe_dim=1)
-        t._range_axiom = (f, sh[1])
-        return t
-
     def apply_at_call(self, interp, rf, args, kwargs):
-        r = Contract.apply_at_call(self, interp, rf, args, kwargs)
-        f, A = r._range_axiom
+        from vf.world import make_rng
+        ctx = interp.ctx
+        fd = interp.get_ast(rf.pyobj)
+        env = interp.bind_args(fd, rf.pyobj, args, kwargs)
+        sh = env['shape']
+        ctx.trusted.add('contract:' + self.qualname)
+        if not isinstance(sh, tuple) or len(sh) != 3:
+            raise SymRaise('ValueError')
+        rs = env['random_state']
+        rng = rs if isinstance(rs, Opaque) and rs.cls == 'rng' else make_rng(rs)
+        if env.get('probs') is not None:
+            if ctx.branch(Not(z3.Bool('probs.valid'))):
+                raise SymRaise('ValueError', 'contract:random_one_hot')
+            pr = env['probs']
+            if isinstance(pr, Tn):
+                # probabilities are per example or shared: leading dim 1 or batch
+                if ctx.branch(Not(Or(O.eq(pr.shape[0], 1), O.eq(pr.shape[0], sh[0])))):
+                    raise SymRaise('IndexError', 'contract:random_one_hot')
+        for d in sh:
+            ctx.may_raise(d < 0, 'ValueError')
+        tape, pos = O.to_z3(rng.attrs['tape']), O.to_z3(rng.attrs['pos'])
+        t = onehot_from_idx(list(sh), lambda b, p: RNDOH(tape, pos, O.to_z3(b), O.to_z3(p)), ohe_dim=1)
         q0, q1 = z3.Ints('rq0 rq1')
-        interp.ctx.assume(z3.ForAll([q0, q1], z3.And(f(q0, q1) >= 0, f(q0, q1) < O.to_z3(A)), patterns=[f(q0, q1)]))
-        for d in r.shape:
-            interp.ctx.assume(d >= 0) if O.is_sym(d) else None
-        return r
+        ctx.assume(z3.ForAll([q0, q1], z3.And(RNDOH(tape, pos, q0, q1) >= 0, RNDOH(tape, pos, q0, q1) < O.to_z3(sh[1]))))
+        rng.attrs['pos'] = rng.attrs['pos'] + 1
+        return t
 
 
 def register(world):
